@@ -88,8 +88,13 @@ package yang
 //@   pure
 //@   safe
 //
-//@ func ParseInt props C15
+// litval: the integer an integer literal denotes -- optional sign, then the
+// magnitude strconv reads from the remaining text (after trimming blanks).
+//@ spec litval(s string) int = trimmed(s)[0] == '-' ? -intval(trimmed(s)[1:])
+//@      : (trimmed(s)[0] == '+' ? intval(trimmed(s)[1:]) : intval(trimmed(s)))
+//@ func ParseInt props C15 C14
 //@   ensures  result1 == nil ==> result.FractionDigits == 0
+//@   ensures  result1 == nil ==> sval(result) == litval(s)
 //@   modifies nothing
 //@   safe
 //
@@ -295,10 +300,12 @@ package yang
 //@   ensures  value == nil && result == nil ==> !old(has(e.ToInt, name)) && e.ToInt[name] == (old(len(e.ToInt)) == 0 ? 0 : old(e.last) + 1)
 //@   ensures  value == nil && old(len(e.ToInt)) > 0 && old(e.last) + 1 > e.max ==> result != nil
 //@   ensures  result == nil ==> has(e.ToInt, name) && !old(has(e.ToInt, name))
+//@   ensures  value != nil && result == nil ==> e.ToInt[name] == litval(value.Name)
 //@   ensures  result == nil ==> (forall n string :: n != name ==> has(e.ToInt, n) == old(has(e.ToInt, n)) && e.ToInt[n] == old(e.ToInt[n]))
 //@   ensures  result != nil ==> e.last == old(e.last) && (forall n string :: has(e.ToInt, n) == old(has(e.ToInt, n)) && e.ToInt[n] == old(e.ToInt[n]))
 //@   modifies e.last, contents(e.ToInt), contents(e.ToString)
 //@   safe
+//@   nowrap
 
 // ---------------------------------------------------------------------------
 // C12: config inheritance and namespace attribution.
